@@ -54,7 +54,7 @@ def _implicit_serdes(ctx: Ctx, discharged: List[Dict[str, Any]]) -> Any:
                     continue
                 if v.startswith("dict[") or v.startswith("list[") or v.startswith("typing.") or v in ("tuple", "list", "dict"):
                     continue  # type expressions (typing.cast(list[int], ...))
-                if isinstance(n.slice, ast.Constant) and isinstance(n.slice.value, int) and isinstance(n.value, ast.Call) and (dotted(n.value.func) or "").endswith("unpack"):
+                if isinstance(n.slice, ast.Constant) and isinstance(n.slice.value, int) and isinstance(n.value, ast.Call) and (dotted(n.value.func) or "").split(".")[-1] in ("unpack", "unpack_from"):
                     rec(fn, n, "struct.unpack of a single-value format returns a 1-tuple")
                     continue
                 # guarded by a dominating comparison of the index against len(value) (if / elif chain with a raise, or an
@@ -570,10 +570,63 @@ def rule_r4(ctx: Ctx) -> None:
     ctx.check(not mutable and not globs and not ext and not memo, "_serdes", "module state", "decoding depends on the schema and the bytes only", m.relpath, {"mutable_globals": mutable, "global_statements": globs, "external_state": ext, "memoised by argument equality (equal types need not have equal content)": memo})
 
 
+def rule_r6_concrete(ctx: Ctx) -> None:
+    """the decoder itself - deserialize with the bit reader underneath, evaluated from the source in one "process" (module-level
+    objects live across the calls) - on concrete types and byte strings: every prefix of valid representations (longest first,
+    so that anything left over from a previous call would show), representations followed by junk and by zeros, single-bit
+    corruptions, runs of 0xFF and pseudo-random strings.  The outcome must be the object the Specification's decoding rules give
+    (implicit zero extension and truncation included) or the rejection they demand - never another exception."""
+    from . import concrete as C
+    from .c06 import _same, concrete_grid
+
+    ctx.rule("C07.R6", "concrete types x byte strings (all prefixes of valid representations, junk / zero suffixes, bit corruptions, 0xFF runs, pseudo-random strings), evaluated from the source in one process: deserialize returns exactly the object the Specification's decoding rules give - missing bytes read as zeros, surplus ignored - or raises the rejection they demand (ArrayLengthError / UnionTagError / DelimiterHeaderError), whatever was decoded before [bounded grid]", min_instances=5)
+    T, grid = concrete_grid(ctx)
+    thorough = ctx.tier == "thorough"
+    n = 0
+    seed = [12345]
+
+    def rnd() -> int:
+        seed[0] = (seed[0] * 1103515245 + 12345) & 0x7FFFFFFF
+        return (seed[0] >> 16) & 0xFF
+
+    for t, values in grid:
+        bad = []
+        strings: List[Tuple[str, bytes, bool]] = []
+        for vi, v in enumerate(values):
+            for hdr in ((False, True) if t.kind == "delimited" else (False,)):
+                valid = C.encode(t, v, hdr)
+                for k in range(len(valid), -1, -1) if (thorough or vi < 2) else (len(valid),):
+                    strings.append(("prefix of %d bytes of value %d" % (k, vi), valid[:k], hdr))
+                strings.append(("value %d + junk" % vi, valid + bytes([0xFF, 0x00, 0xA5, 0xFF]), hdr))
+                strings.append(("value %d + zeros" % vi, valid + bytes(9), hdr))
+                step = 1 if thorough else (3 if vi == 0 else 0)
+                for bit in range(0, 8 * len(valid), step) if step else ():
+                    b = bytearray(valid)
+                    b[bit // 8] ^= 1 << (bit % 8)
+                    strings.append(("value %d with bit %d flipped" % (vi, bit), bytes(b), hdr))
+        for k in range(0, 13 if thorough else 7):
+            strings.append(("%d bytes of 0xFF" % k, bytes([0xFF]) * k, False))
+        for k in range(24 if thorough else 8):
+            strings.append(("pseudo-random string %d" % k, bytes(rnd() for _ in range(1 + rnd() % 24)), t.kind == "delimited" and k % 2 == 1))
+        for label, b, hdr in strings:
+            try:
+                want: Any = C.decode(t, b, hdr)
+            except C.Rejected as rj:
+                want = ("raised", str(rj))
+            got = C.run_codec(ctx, T, "deserialize", t, b, hdr)
+            n += 1
+            ok = (got == want) if isinstance(want, tuple) and want and want[0] == "raised" else _same(got, want)
+            if not ok and len(bad) < 5:
+                bad.append({"data": b.hex(), "what": label, "with header": hdr, "found": repr(got)[:200], "Specification": repr(want)[:200]})
+        ctx.check(not bad, t.label, "%d byte strings" % len(strings), "deserialize is total: the Specification's object or the Specification's rejection, from the data given alone", "pydsdl/_serdes.py", bad[:3])
+    ctx.count(n)
+
+
 def run(ctx: Ctx) -> None:
     ctx.attempt(rule_r1, ctx)
     ctx.attempt(rule_r2, ctx)
     ctx.attempt(rule_r3, ctx)
     ctx.attempt(rule_r4, ctx)
     ctx.attempt(rule_r5, ctx)
+    ctx.attempt(rule_r6_concrete, ctx)
     ctx.undecided("the fixed-point clause (deserialize . serialize . deserialize), bit values of decoded numbers, decode(b) == decode(b + zeros) as a value fact, running time for huge declared lengths")
